@@ -1,0 +1,49 @@
+//go:build verif
+
+package group
+
+import "sort"
+
+// VerifGroups lists the group names the controllers know (verification tooling only).
+func (tgc *TCPGroupCtl) VerifGroups() []string {
+	tgc.mu.Lock()
+	defer tgc.mu.Unlock()
+	out := []string{}
+	for g, tg := range tgc.groups {
+		tg.mu.Lock()
+		n := len(tg.lns)
+		tg.mu.Unlock()
+		if n > 0 {
+			out = append(out, g)
+		}
+	}
+	sort.Strings(out)
+	return out
+}
+
+func (ctl *HTTPGroupController) VerifGroups() []string {
+	ctl.mu.Lock()
+	defer ctl.mu.Unlock()
+	out := []string{}
+	for g := range ctl.groups {
+		out = append(out, g)
+	}
+	sort.Strings(out)
+	return out
+}
+
+func (tmgc *TCPMuxGroupCtl) VerifGroups() []string {
+	tmgc.mu.Lock()
+	defer tmgc.mu.Unlock()
+	out := []string{}
+	for g, tg := range tmgc.groups {
+		tg.mu.Lock()
+		n := len(tg.lns)
+		tg.mu.Unlock()
+		if n > 0 {
+			out = append(out, g)
+		}
+	}
+	sort.Strings(out)
+	return out
+}
